@@ -33,7 +33,72 @@ func (rg *ruleGen) atom() Rule {
 	return Rule{Atom: ip(rg.g.n(rg.nAtoms))}
 }
 
+// branches estimates the number of failure branches the translator expands a rule into
+// (neg = under a negation); used only to keep generated cases within seconds of compile time.
+func branches(r Rule, neg bool) int {
+	sum := func(rs []Rule, n bool) int {
+		t := 0
+		for _, x := range rs {
+			t += branches(x, n)
+		}
+		return t
+	}
+	prod := func(rs []Rule, n bool) int {
+		t := 1
+		for _, x := range rs {
+			t *= branches(x, n)
+			if t > 1<<20 {
+				return 1 << 20
+			}
+		}
+		return t
+	}
+	switch {
+	case r.Atom != nil:
+		return 1
+	case r.And != nil:
+		if neg {
+			return prod(r.And, true)
+		}
+		return sum(r.And, false)
+	case r.Or != nil:
+		if neg {
+			return sum(r.Or, true)
+		}
+		return prod(r.Or, false)
+	case r.Not != nil:
+		return branches(*r.Not, !neg)
+	case r.If != nil && r.Else == nil:
+		if neg {
+			return branches(*r.If, false) + branches(*r.Then, true)
+		}
+		return branches(*r.If, true) * branches(*r.Then, false)
+	case r.If != nil:
+		a := branches(*r.If, true) * branches(*r.Then, false)
+		b := branches(*r.If, false) * branches(*r.Else, false)
+		if neg {
+			a = branches(*r.If, false) + branches(*r.Then, true)
+			b = branches(*r.If, true) + branches(*r.Else, true)
+			return a * b
+		}
+		return a + b
+	case r.Nested != nil:
+		return 1 + branches(*r.Nested, false)/4
+	}
+	return 1
+}
+
+// rule draws a formula whose expansion stays small enough to compile in seconds
 func (rg *ruleGen) rule(depth int) Rule {
+	for {
+		r := rg.rule0(depth)
+		if branches(r, false) <= 40 {
+			return r
+		}
+	}
+}
+
+func (rg *ruleGen) rule0(depth int) Rule {
 	g := rg.g
 	if depth <= 0 || g.coin(0.25) {
 		return rg.atom()
@@ -45,7 +110,7 @@ func (rg *ruleGen) rule(depth int) Rule {
 		k := 2 + g.n(3)
 		var body []Rule
 		for i := 0; i < k; i++ {
-			body = append(body, rg.rule(depth-1))
+			body = append(body, rg.rule0(depth-1))
 		}
 		return Rule{And: body}
 	case x < 44:
@@ -53,26 +118,26 @@ func (rg *ruleGen) rule(depth int) Rule {
 		k := 2 + g.n(3)
 		var body []Rule
 		for i := 0; i < k; i++ {
-			body = append(body, rg.rule(depth-1))
+			body = append(body, rg.rule0(depth-1))
 		}
 		return Rule{Or: body}
 	case x < 62:
 		rg.used["not"]++
-		r := rg.rule(depth - 1)
+		r := rg.rule0(depth - 1)
 		return Rule{Not: &r}
 	case x < 74:
 		rg.used["if"]++
-		i, t := rg.rule(depth-1), rg.rule(depth-1)
+		i, t := rg.rule0(depth-1), rg.rule0(depth-1)
 		return Rule{If: &i, Then: &t}
 	case x < 86:
 		rg.used["ifelse"]++
-		i, t, e := rg.rule(depth-1), rg.rule(depth-1), rg.rule(depth-1)
+		i, t, e := rg.rule0(depth-1), rg.rule0(depth-1), rg.rule0(depth-1)
 		return Rule{If: &i, Then: &t, Else: &e}
 	default:
 		if rg.nPaths == 0 {
 			return rg.atom()
 		}
-		inner := rg.rule(depth - 1)
+		inner := rg.rule0(depth - 1)
 		r := Rule{Nested: &inner, PathIx: ip(g.n(rg.nPaths))}
 		if g.coin(0.55) {
 			rg.used["quantified"]++
@@ -148,8 +213,10 @@ func (g *G) randAtom(countOnly bool) Atom {
 	case "minInclusive", "minExclusive", "maxInclusive", "maxExclusive":
 		a.Arg = i64p(int64(g.n(7) - 2))
 	case "lessThanProperty", "lessThanOrEqualsToProperty", "equalsToProperty", "disjointWithProperty":
-		q := g.path(g.n(2))
+		// node objects (reached by a final inverse step) compare structurally in OPA; not modelled
+		q := noInverse(g.path(g.n(2)))
 		a.Other = &q
+		a.Path = noInverse(a.Path)
 	case "datatype":
 		a.Dt = "http://www.w3.org/2001/XMLSchema#" + g.pick([]string{"string", "integer", "boolean", "float"})
 	}
@@ -185,6 +252,20 @@ func genC01Graph(g *G, id int, countOnly bool) C01Case {
 	return c
 }
 
+// Stream "atoms": every atom alone and under `not`, to tie the per-constraint semantics.
+func genC01Atoms(g *G, id int) C01Case {
+	c := C01Case{Op: "c01", Id: id, Stream: "atoms"}
+	nAtoms := 2 + g.n(3)
+	for j := 0; j < nAtoms; j++ {
+		c.Atoms = append(c.Atoms, g.randAtom(false))
+		c.Validations = append(c.Validations,
+			Validation{Name: fmt.Sprintf("a%d", j), Class: NS + "T", Rule: Rule{Atom: ip(j)}},
+			Validation{Name: fmt.Sprintf("n%d", j), Class: NS + "T", Rule: Rule{Not: &Rule{Atom: ip(j)}}})
+	}
+	c.Graph = g.graph(3+g.n(5), 0.45)
+	return c
+}
+
 func genC01(g *G, n int, out io.Writer, stream string) {
 	enc := json.NewEncoder(out)
 	for i := 0; i < n; i++ {
@@ -194,6 +275,8 @@ func genC01(g *G, n int, out io.Writer, stream string) {
 			c = genC01TruthTable(g, i)
 		case "graphcount":
 			c = genC01Graph(g, i, true)
+		case "atoms":
+			c = genC01Atoms(g, i)
 		default:
 			c = genC01Graph(g, i, false)
 		}
@@ -202,4 +285,22 @@ func genC01(g *G, n int, out io.Writer, stream string) {
 		c.Data = c.Graph.RenderFlat()
 		enc.Encode(c)
 	}
+}
+
+func noInverse(p Path) Path {
+	q := p
+	q.Inv = false
+	if p.Seq != nil {
+		q.Seq = nil
+		for _, x := range p.Seq {
+			q.Seq = append(q.Seq, noInverse(x))
+		}
+	}
+	if p.Alt != nil {
+		q.Alt = nil
+		for _, x := range p.Alt {
+			q.Alt = append(q.Alt, noInverse(x))
+		}
+	}
+	return q
 }
